@@ -163,6 +163,14 @@ def check_c03(tier, seed):
             # "none" (nothing retrieved before EOS) is only legal while the output pools last: longer streams block in send_picture by design (back-pressure, C27)
             gg = {'pacing': rng.choice(['each', 'each', 'random', 'every_k', 'none' if n <= 6 else 'each']), 'eos': 'separate', 'pts': pts, 'pseed': rng.randint(0, 999)}
             cases.append(mk(ck, g, gen.content(rng, kinds=['mix', 'moving', 'flat'], n=n), n, (64, 64), g=gg, sim=gen.schedule(rng, allow_buggify=(tier != 'quick')), oracles={'decode': 1, 'parse': 0, 'recon_compare': 0, 'order': 1}))
+    # streams that end exactly on, just before and just after a base-layer picture (the last picture closes / does not close a mini-GOP): with overlays or
+    # alt-refs the last temporal unit then carries two pictures with the end-of-sequence mark travelling on one of them
+    for g0 in [{'enable_overlays': 1, 'hierarchical_levels': 3, 'enc_mode': 6}, {'enable_overlays': 1, 'hierarchical_levels': 4}, {'enable_overlays': 1, 'hierarchical_levels': 2, 'recon_enabled': 0},
+               {'hierarchical_levels': 3}, {'hierarchical_levels': 4, 'intra_period_length': 16}, {'pred_structure': 1, 'hierarchical_levels': 3}]:
+        mg = 1 << g0['hierarchical_levels']
+        for n in sorted(set([mg, mg + 1, mg + 2, 2 * mg + 1, 2 * mg + 2] + ([3 * mg + 1] if tier != 'quick' else []))):
+            g = dict(g0); g['enc_mode'] = g.get('enc_mode', 8); g['logical_processors'] = rng.choice([1, 2, 4])
+            cases.append(mk(ck, g, gen.content(rng, kinds=['mix', 'moving'], n=n), n, (64, 64), g={'pacing': rng.choice(['each', 'random']), 'eos': 'separate', 'pseed': rng.randint(0, 999)}, sim=gen.schedule(rng, allow_buggify=False), oracles={'decode': 1, 'parse': 0, 'recon_compare': 0, 'order': 1})); ck.ev.probe('minigop_boundary_length')
     rs = run_batch(ck, cases, 'plain', 'C03', ('TERM',))
     for c, r in zip(cases, rs):
         if c['_gen'].get('pts'): ck.ev.probe('non_default_pts')
@@ -311,7 +319,9 @@ def check_c21(tier, seed):
                   '(ASan turns any later library read into a report); one buffer reused for all pictures vs fresh buffers; sizes not multiple of 8; 8-bit and 10-bit; oracle: byte-identical packets/recon, no sanitizer report; distinct = distinct cases')
     ck.ev.components = core.COMPONENTS_ENC; ck.ev.assumptions = list(ENC_ASSUME)
     variant = 'asan'; core.build(variant); rng = ck.rng
-    bases = [({'logical_processors': 2}, {'kind': 'mix', 'seed': 3}, 5, (64, 64)), ({'logical_processors': 1, 'encoder_bit_depth': 10}, {'kind': 'moving', 'seed': 5}, 3, (72, 66))]
+    bases = [({'logical_processors': 2}, {'kind': 'mix', 'seed': 3}, 5, (64, 64)), ({'logical_processors': 1, 'encoder_bit_depth': 10}, {'kind': 'moving', 'seed': 5}, 3, (72, 66)),
+             # widths/heights that are not multiples of 8: the library pads the picture to a multiple of the minimum block size itself - with what?
+             ({'logical_processors': 1}, {'kind': 'moving', 'seed': 7}, 4, (70, 66)), ({'logical_processors': 2, 'enc_mode': 6}, {'kind': 'mix', 'seed': 9}, 3, (132, 68)), ({'logical_processors': 1, 'encoder_bit_depth': 10}, {'kind': 'mix', 'seed': 11}, 3, (66, 76))]
     for i in range(4 if tier == 'quick' else 10):
         cfgo = gen.swarm_cfg(rng, fields=['enc_mode', 'hierarchical_levels', 'tf_level', 'encoder_bit_depth', 'look_ahead_distance'], nmax=2); cfgo['logical_processors'] = rng.choice([1, 2, 4])
         bases.append((cfgo, gen.content(rng, kinds=['mix', 'moving', 'noise']), rng.randint(2, 6), gen.size(rng)))
@@ -449,7 +459,9 @@ def check_c18(tier, seed):
     core.build('plain'); rng = ck.rng; cases = []
     def add(cfgo, kind, n):
         cfgo = dict(cfgo); cfgo.setdefault('logical_processors', rng.choice([1, 2]))
-        cases.append(mk(ck, cfgo, {'kind': kind, 'seed': rng.randint(1, 999), 'val': rng.choice([16, 128, 235])}, n, (64, 64), oracles={'decode': 0, 'parse': 1, 'qbounds': 1, 'order': 0}, sim=gen.schedule(rng, allow_buggify=False)))
+        c = mk(ck, cfgo, {'kind': kind, 'seed': rng.randint(1, 999), 'val': rng.choice([16, 128, 235])}, n, (64, 64), oracles={'decode': 0, 'parse': 1, 'qbounds': 1, 'order': 0}, sim=gen.schedule(rng, allow_buggify=False))
+        if not cfgo.get('rate_control_mode') and not (cfgo.get('min_qp_allowed', 0) <= cfgo.get('qp', 30) <= cfgo.get('max_qp_allowed', 63)): c['_qp_outside_bounds'] = 1
+        cases.append(c)
     for qp in ([0, 1, 2, 11, 20, 31, 43, 52, 62, 63] if tier == 'quick' else range(0, 64, 3)):
         offs = rng.choice([[0] * 6, [0, 4, 8, 12, 16, 20], [-8, -4, 0, 4, 8, 12], [40, 40, 40, 40, 40, 40], [-60, 0, 60, 0, -60, 0]])
         add({'qp': qp, 'use_fixed_qindex_offsets': 1, 'qindex_offsets': offs, 'key_frame_qindex_offset': rng.choice([0, -12, 20]), 'rate_control_mode': 0, 'hierarchical_levels': rng.choice([3, 4])}, rng.choice(['mix', 'noise', 'rails']), rng.randint(3, 10))
@@ -457,6 +469,9 @@ def check_c18(tier, seed):
         if mx == 0: mx = rng.randint(mn, 63)
         for rc in (1, 2):
             add({'rate_control_mode': rc, 'min_qp_allowed': mn, 'max_qp_allowed': mx, 'target_bit_rate': rng.choice([20000, 200000, 5000000]), 'look_ahead_distance': rng.choice([0, 17]), 'enc_mode': 8}, rng.choice(['rails', 'noise', 'flat', 'moving']), rng.randint(8, 26))
+            # both rails on purpose: a starved budget on incompressible content (rate control wants the coarsest quantizer) and a lavish one on flat content (the finest)
+            add({'rate_control_mode': rc, 'min_qp_allowed': mn, 'max_qp_allowed': mx, 'target_bit_rate': 10000, 'look_ahead_distance': 0, 'enc_mode': 8, 'intra_period_length': 15}, 'noise', 20)
+            add({'rate_control_mode': rc, 'min_qp_allowed': mn, 'max_qp_allowed': mx, 'target_bit_rate': 8000000, 'look_ahead_distance': 17, 'enc_mode': 8, 'intra_period_length': 15}, 'rails', 24)
     for qp in ([10, 30, 50, 63] if tier == 'quick' else [5, 20, 35, 50, 63]):
         add({'qp': qp, 'enable_qp_scaling_flag': 1, 'rate_control_mode': 0, 'max_qp_allowed': rng.choice([63, 63, 50])}, rng.choice(['mix', 'rails']), rng.randint(5, 12))
     for (mn, mx, tbr) in ([(10, 50, 200000), (30, 30, 50000), (1, 20, 20000), (45, 63, 3000000)] if tier == 'quick' else [(rng.randint(0, 40), 0, rng.choice([20000, 200000, 3000000])) for _ in range(16)]):
